@@ -71,6 +71,7 @@ def reduce_trig(p: nf.Poly, cos_id: int, sin_id: int) -> nf.Poly:
 
 
 def run(ctx: Ctx):
+    augment_after_reset(ctx)
     # ---------------- a: dihedral
     fi = ctx.repo.get_function(TR, "dihedral_8_augmentation")
     ctx.fn(fi)
@@ -322,6 +323,44 @@ def run(ctx: Ctx):
     for o in keep:
         o.rule = "C15.c"
     ctx.obligations.extend(keep)
+
+
+def augment_after_reset(ctx: Ctx):
+    """C15.d the models that augment at validation / test time (POMO, SymNCO) augment the STATE returned by env.reset, which
+    holds every coordinate of the instance in one `locs` tensor (depot included).  Augmenting the raw batch instead transforms
+    the customers but not a separately stored depot: the copies are no longer isometric images of the instance."""
+    import ast
+    n = 0
+    for path, cname in (("rl4co/models/zoo/pomo/model.py", "POMO"), ("rl4co/models/zoo/symnco/model.py", "SymNCO")):
+        cls = ctx.repo.get_class(path, cname)
+        fi = cls.methods.get("shared_step")
+        if fi is None:
+            raise AnalysisError(f"{cname}.shared_step not found")
+        ctx.fn(fi)
+        resets = {}     # variable name -> True when assigned from self.env.reset(...)
+        ok, seen = True, 0
+        why = []
+        for st in ast.walk(fi.node):
+            if isinstance(st, ast.Assign) and isinstance(st.value, ast.Call):
+                f = st.value.func
+                tgt = st.targets[0].id if isinstance(st.targets[0], ast.Name) else None
+                if isinstance(f, ast.Attribute) and f.attr == "reset" and ast.unparse(f.value) == "self.env" and tgt:
+                    resets[tgt] = st.lineno
+        for c in ast.walk(fi.node):
+            if isinstance(c, ast.Call) and isinstance(c.func, ast.Attribute) and c.func.attr == "augment" and ast.unparse(c.func.value) == "self" and c.args:
+                seen += 1
+                a = c.args[0]
+                good = isinstance(a, ast.Name) and a.id in resets and resets[a.id] < c.lineno
+                # ... and the reset is not re-done on the augmented object afterwards
+                later_reset = any(isinstance(x, ast.Call) and isinstance(x.func, ast.Attribute) and x.func.attr == "reset" and x.lineno > c.lineno for x in ast.walk(fi.node))
+                if not good or later_reset:
+                    ok = False
+                    why.append(f"self.augment({ast.unparse(a)}) at line {c.lineno}: argument is not the state returned by self.env.reset(...)" + (" (env.reset runs after the augmentation)" if later_reset else ""))
+        if not seen:
+            raise AnalysisError(f"{cname}.shared_step: no self.augment(...) call")
+        n += 1
+        ctx.ob("C15.d", f"{cname}.shared_step:augment-the-reset-state", ok, fi.loc,
+               "self.augment is applied to the TensorDict returned by self.env.reset" if ok else "; ".join(why), construct=f"{cname}.shared_step:augment-after-reset")
 
 
 def run_thorough(ctx: Ctx):
